@@ -180,7 +180,64 @@ pub fn main() -> ! {
             // the deeper level was not started: the completed bound is reported
             break;
         }
-        let results = vcommon::par_map(flat.len(), jobs, |i| exec(&built, &sigs, &scens[flat[i].0], &flat[i].1));
+        // Executions run in batches inside one forked child: an execution that ends "done"
+        // without a violation leaves guest and host clean (all tasks exited, ledger checked), so
+        // the next one can reuse the process; after anything else the batch continues in a
+        // fresh child, and a batch whose child was lost is re-run one execution per child.
+        const BATCH: usize = 16;
+        let nb = flat.len().div_ceil(BATCH);
+        let batches = vcommon::par_map(nb, jobs, |b| {
+            let lo = b * BATCH;
+            let hi = (lo + BATCH).min(flat.len());
+            let mut out: Vec<Value> = Vec::new();
+            let mut at = lo;
+            while at < hi {
+                let start = at;
+                let o = vcommon::isolated(120_000, || {
+                    let mut rs: Vec<Value> = Vec::new();
+                    for (si, prefix, _) in &flat[start..hi] {
+                        let s = &scens[*si];
+                        let bl = built.iter().find(|x| x.variant == s.variant).unwrap();
+                        c8_host::install(bl.lib, sigs.to_vec(), s.variant);
+                        let r = c8_host::run(&Case { sig: &sigs[s.k], dir: s.dir.clone(), v1: &s.v1, v2: &s.v2 }, prefix.clone());
+                        let clean = r["outcome"] == "done" && r["violations"].as_array().map(|a| a.is_empty()).unwrap_or(false);
+                        rs.push(r);
+                        if !clean {
+                            break;
+                        }
+                    }
+                    serde_json::to_vec(&rs).unwrap()
+                });
+                let parsed: Option<Vec<Value>> = match &o {
+                    Outcome::Ok(bytes) => serde_json::from_slice::<Value>(bytes).ok().and_then(|v| v.as_array().cloned()),
+                    _ => None,
+                };
+                match parsed {
+                    Some(rs) if !rs.is_empty() => {
+                        at += rs.len();
+                        out.extend(rs);
+                    }
+                    _ => {
+                        // lost child or an aborted execution's own report: one execution per child
+                        // until the culprit has been passed
+                        loop {
+                            let r = exec(&built, &sigs, &scens[flat[at].0], &flat[at].1);
+                            let clean = r["outcome"] == "done" && r["violations"].as_array().map(|a| a.is_empty()).unwrap_or(false);
+                            out.push(r);
+                            at += 1;
+                            if !clean || at >= hi {
+                                break;
+                            }
+                        }
+                    }
+                }
+            }
+            Value::Array(out)
+        });
+        let results: Vec<Value> = batches.into_iter().flat_map(|b| b.as_array().cloned().unwrap_or_default()).collect();
+        if results.len() != flat.len() {
+            vcommon::machinery(&format!("{} results for {} executions", results.len(), flat.len()));
+        }
         let mut next: Vec<Vec<(Vec<usize>, usize)>> = scens.iter().map(|_| Vec::new()).collect();
         for ((si, prefix, start), r) in flat.iter().zip(&results) {
             let s = &scens[*si];
